@@ -187,6 +187,10 @@ func (pConn *PFCPConn) handleAssociationSetupResponse(msg message.Message) error
 		return errUnmarshal(errMsgUnexpectedType)
 	}
 
+	if asres.Cause == nil || asres.NodeID == nil || asres.RecoveryTimeStamp == nil {
+		return errUnmarshal(errMandatoryIEMissing)
+	}
+
 	cause, err := asres.Cause.Cause()
 	if err != nil {
 		return errUnmarshal(err)
